@@ -1,2 +1,93 @@
-(* placeholder while the pipeline is brought up *)
-From Cfg Require Import Model.RedisBroker Model.MemBroker18.
+(* C18 Redis and Memory stream brokers agree.
+   Property theorems only; proofs live in Proofs/C18*.v.
+
+   Models: Model/RedisBroker.v (Go glue of broker_redis.go) over the SHALLOW
+   versions of the five Lua scripts (Model/RedisScripts.v) over Model/Redis.v;
+   Model/MemBroker18.v (broker_memory.go + memstream, with the "version only
+   updated when > 0" fix).  Redis' and Lua's semantics are MODELLED (trusted);
+   shallow scripts <-> interpreted ASTs of the real .lua files are tied by
+   evaluation on every explored case (Harness/C18.v), not by proof. *)
+From Coq Require Import List NArith ZArith Bool String.
+From Cfg Require Import Model.Redis Model.RedisScripts Model.BrokerApi18 Model.RedisBroker Model.MemBroker18
+                        Proofs.C18Stream Proofs.C18StreamT Proofs.C18Witness.
+Import ListNotations.
+Open Scope string_scope.
+
+(* FULL STATEMENT (property text): forall cfg ops, redis_run cfg ops = mem_run cfg ops
+   for list and stream storage.  It is FALSE on the faithful models (see the
+   _refuted theorems below, most of them replayed against the real code).  What
+   holds, for STREAM storage, is agreement on the domain carved out by those
+   witnesses:
+     cfg_ok   : stream storage, node HistoryMetaTTL in [0, 2^31) s;
+     keys_okb : no two channels / (channel, idempotency key) pairs used by the sequence
+                map to the same Redis key or memory cache key;
+     run_ok   : along the run, every operation satisfies op_ok: no clock tick; channel
+                non-empty; sizes/TTLs < 2^31; versions < 2^53; idempotency keys only with
+                history on; nonces (epochs) without ':' and '_'; payloads < 2^31-1 bytes;
+                stream top stays < 10^14; reverse iteration "since" a position only from
+                1 <= offset <= top+1.
+   "_partial": time (TTL expiry, OpTick) is excluded from this theorem; list storage is
+   covered by C18_agree_list_partial when present. *)
+Theorem C18_agree_stream_partial :
+  forall cfg ops,
+    cfg_ok cfg = true -> keys_okb (chans ops) (idems ops) = true -> run_ok cfg minit ops = true ->
+    redis_run cfg ops = mem_run cfg ops.
+Proof. exact agree_stream. Qed.
+Print Assumptions C18_agree_stream_partial.
+
+(* Non-vacuity: a sequence with publishes (delta, idempotent, versioned, suppressed),
+   history calls in both directions, remove, satisfies the hypotheses. *)
+Example C18_domain_inhabited :
+  cfg_ok cfgS = true /\ keys_okb (chans w_agree_stream) (idems w_agree_stream) = true /\
+  run_ok cfgS minit w_agree_stream = true /\ List.length w_agree_stream = 18%nat.
+Proof. vm_compute. repeat split. Qed.
+
+(* ---- the full statement is refuted: each hypothesis above is necessary ---- *)
+Theorem C18_agree_refuted : exists cfg ops, redis_run cfg ops <> mem_run cfg ops.
+Proof. exists cfgS, w_version_2p53. exact version_2p53_differs. Qed.
+Print Assumptions C18_agree_refuted.
+
+(* versions >= 2^53 (compared as doubles by Lua tonumber) *)
+Theorem C18_version_2p53_refuted :
+  exists ops, keys_okb (chans ops) (idems ops) = true /\ redis_run cfgS ops <> mem_run cfgS ops.
+Proof. exists w_version_2p53. split; [reflexivity | exact version_2p53_differs]. Qed.
+(* versions >= 2^63 (strconv.Itoa(int(version)) is negative) *)
+Theorem C18_version_2p63_refuted :
+  exists ops, keys_okb (chans ops) (idems ops) = true /\ redis_run cfgS ops <> mem_run cfgS ops.
+Proof. exists w_version_2p63. split; [reflexivity | exact version_2p63_differs]. Qed.
+(* idempotent publish without history: Redis never reports Suppressed *)
+Theorem C18_nohist_idempotent_refuted :
+  exists ops, keys_okb (chans ops) (idems ops) = true /\ redis_run cfgS ops <> mem_run cfgS ops.
+Proof. exists w_nohist_idem. split; [reflexivity | exact nohist_idem_differs]. Qed.
+(* idempotency key used without, then with history: Redis answers an error *)
+Theorem C18_idempotency_cross_mode_refuted :
+  exists ops, keys_okb (chans ops) (idems ops) = true /\ redis_run cfgS ops <> mem_run cfgS ops.
+Proof. exists w_idem_cross. split; [reflexivity | exact idem_cross_differs]. Qed.
+(* reverse history since a position beyond the top (incl. offset 0) *)
+Theorem C18_reverse_since_beyond_top_refuted :
+  exists ops, keys_okb (chans ops) (idems ops) = true /\ redis_run cfgS ops <> mem_run cfgS ops.
+Proof. exists w_reverse_beyond. split; [reflexivity | exact reverse_beyond_differs]. Qed.
+(* channel "meta.x" shares a Redis key with channel "x" *)
+Theorem C18_key_collision_refuted :
+  exists ops, keys_okb (chans ops) (idems ops) = false /\ redis_run cfgS ops <> mem_run cfgS ops.
+Proof. exists w_key_collision. split; [reflexivity | exact key_collision_differs]. Qed.
+(* list storage: versions ignored; delta pushes undeliverable; no reverse; since = MaxUint64 *)
+Theorem C18_list_version_refuted : exists ops, redis_run cfgL ops <> mem_run cfgL ops.
+Proof. exists w_list_version. exact list_version_differs. Qed.
+Theorem C18_list_delta_refuted :
+  exists ops, redis_run cfgL ops <> mem_run cfgL ops /\ snd (nth 1 (redis_run cfgL ops) (ResErr, [])) = [].
+Proof. exists w_list_delta. split; [exact list_delta_differs | exact list_delta_second_not_delivered]. Qed.
+Theorem C18_list_reverse_refuted : exists ops, redis_run cfgL ops <> mem_run cfgL ops.
+Proof. exists w_list_reverse. exact list_reverse_differs. Qed.
+(* time: a version-suppressed publish refreshes the history TTL in memory only;
+   a meta TTL shorter than the history TTL leaves stale entries in Redis *)
+Theorem C18_suppressed_publish_ttl_refuted : exists ops, redis_run cfgS ops <> mem_run cfgS ops.
+Proof. exists w_suppressed_ttl. exact suppressed_ttl_differs. Qed.
+Theorem C18_meta_ttl_shorter_refuted : exists cfg ops, redis_run cfg ops <> mem_run cfg ops.
+Proof. exists cfgM, w_meta_shorter. exact meta_shorter_differs. Qed.
+
+(* agreement examples outside the proved domain (list storage, clock ticks) *)
+Example C18_list_example : redis_run cfgL w_agree_list = mem_run cfgL w_agree_list.
+Proof. exact agree_list_example. Qed.
+Example C18_ticks_example : redis_run cfgS w_agree_ticks = mem_run cfgS w_agree_ticks.
+Proof. exact agree_ticks_example. Qed.
